@@ -12,15 +12,27 @@ Local Notation crs := (crs S).
 Definition row_cols (r : row S) : list nat := map fst r.
 Definition cols_of (A : crs) (i : nat) : list nat := row_cols (nth i (rows A) []).
 
-(* 1. levels: rows are visited in sweep order; only the already-swept neighbours of
-   the row's OWN pattern count (forward: skip c >= i; backward: skip c <= i) *)
+(* 1. levels: rows are visited in sweep order.  First loop over the row: the already-swept
+   neighbours of the row's own pattern (forward: skip c >= i; backward: skip c <= i) give
+   l = max(l, level[c]+1).  Second loop (the fix f214b60): the neighbours that are swept
+   LATER (forward: c > i) get level[c] = max(level[c], l+1). *)
 Definition gs_deps (forward : bool) (A : crs) (i : nat) : list nat :=
   filter (fun c => if forward then Nat.ltb c i else Nat.ltb i c) (cols_of A i).
+Definition gs_push (forward : bool) (A : crs) (i : nat) : list nat :=
+  filter (fun c => if forward then Nat.ltb i c else Nat.ltb c i) (cols_of A i).
 Definition gs_levels (forward : bool) (A : crs) : list nat :=
-  compute_levels (gs_deps forward A) (sweep_order forward (nrows A)) (nrows A).
+  compute_levels_push (gs_deps forward A) (gs_push forward A) (sweep_order forward (nrows A)) (nrows A).
 (* 2.+3. counting sort by level, each level split into nthreads chunks *)
 Definition gs_schedule (forward : bool) (A : crs) (nt : nat) : rsched :=
   schedule_of_levels nt (gs_levels forward A).
+
+(* HISTORICAL (documentation only): the level rule before the fix f214b60 looked only at
+   the row's own already-swept neighbours.  For structurally non-symmetric patterns it
+   violates the property (SchedProofs.gs_schedule_old_race_refuted). *)
+Definition gs_levels_old (forward : bool) (A : crs) : list nat :=
+  compute_levels (gs_deps forward A) (sweep_order forward (nrows A)) (nrows A).
+Definition gs_schedule_old (forward : bool) (A : crs) (nt : nat) : rsched :=
+  schedule_of_levels nt (gs_levels_old forward A).
 (* 4. per-thread copies of the rows, in ord[tid] order (ptr/col/val of the thread) *)
 Definition thread_rows (A : crs) (sch : rsched) (tid : nat) : list (row S) :=
   map (fun i => nth i (rows A) []) (thread_ord sch tid).
@@ -42,6 +54,8 @@ Definition gs_step (A : crs) (rhs : vec) (i : nat) : step S :=
 (* the parallel region: level -> thread -> steps *)
 Definition gs_par_levels (forward : bool) (A : crs) (nt : nat) (rhs : vec) : list (list (list (step S))) :=
   map (map (map (gs_step A rhs))) (gs_schedule forward A nt).
+Definition gs_par_levels_old (forward : bool) (A : crs) (nt : nat) (rhs : vec) : list (list (list (step S))) :=
+  map (map (map (gs_step A rhs))) (gs_schedule_old forward A nt).
 (* in-order execution (thread 0's task, thread 1's task, ..., barrier, next level) *)
 Definition gs_par_sweep_inorder (forward : bool) (A : crs) (nt : nat) (rhs x : vec) : vec :=
   exec (seq_of_levels (gs_par_levels forward A nt rhs)) x.
